@@ -136,9 +136,16 @@ class C11(object):
             cfg["dset_cap"] = 0
             cfg["strategy"] = rnd.choice(["rtc", "rr"])
             cfg["quantum"] = 50
-        return {"entry": "connectedpixels*", "ns": ns, "nf": nf, "kind": kind, "image": im.ravel().tolist(),
-                "threshold": float(th), "cut": rnd.choice([-2.0, float(th), float(th)]), "cfg": cfg,
-                "gstyle": rnd.choice([0, 1])}
+        d = {"entry": "connectedpixels*", "ns": ns, "nf": nf, "kind": kind, "image": im.ravel().tolist(),
+             "threshold": float(th), "cut": rnd.choice([-2.0, float(th), float(th)]), "cfg": cfg,
+             "gstyle": rnd.choice([0, 1])}
+        if ns < 200 and rnd.random() < 0.15:
+            # another Python thread labels another frame at the same time (the sparse kernels run without the GIL)
+            ns2, nf2 = rnd.choice([2, 3, 5, 8]), rnd.choice([2, 4, 7, 9])
+            k2, im2 = make_image(rnd, g, ns2, nf2)
+            d["concurrent"] = {"ns": ns2, "nf": nf2, "image": im2.ravel().tolist(), "threshold": rnd.choice([0.0, 5.0, float(th)]),
+                               "ccfg": enginea.draw_cfg(rnd, max_team=4)}
+        return d
 
     def describe(self, desc):
         if desc["entry"] == "SparseScan.cplabel":
@@ -316,6 +323,47 @@ class C11(object):
                          "detail": "dense, sparse and splat do not induce the same partition of the same pixels"}
             if v is not None and viol is None:
                 viol = v
+        nconc = 0
+        if viol is None and desc.get("concurrent") and stored.any():
+            c2 = desc["concurrent"]
+            im2 = np.array(c2["image"], np.float32).reshape(c2["ns"], c2["nf"])
+            st2 = im2 > np.float32(c2["threshold"])
+            if st2.any():
+                def spec(kern, image, sel_mask, thr):
+                    rr, cc = np.nonzero(sel_mask)
+                    m = len(rr)
+                    if kern == "sparse_connectedpixels":
+                        return (kern, {"v": image[sel_mask], "i": rr.astype(np.uint16), "j": cc.astype(np.uint16), "nnz": m,
+                                       "threshold": thr, "labels": [m]}, {"v": "in", "i": "in", "j": "in", "labels": "out"}, "labels")
+                    return (kern, {"v": image[sel_mask], "i": rr.astype(np.uint16), "j": cc.astype(np.uint16), "nnz": m, "th": thr,
+                                   "lbl": np.zeros(m, np.int32), "Z": [(image.shape[0] + 2) * (image.shape[1] + 2)],
+                                   "ni": image.shape[0], "nj": image.shape[1]},
+                            {"v": "in", "i": "in", "j": "in", "lbl": "io", "Z": "work"}, "lbl")
+                for kern in ("sparse_connectedpixels", "sparse_connectedpixels_splat"):
+                    specs = [spec(kern, im, stored, th), spec(kern, im2, st2, c2["threshold"])]
+                    solo = []
+                    for kn, vals, roles, outn in specs:
+                        r_, a_, s_ = kernels.run_kernel(sim, kn, vals, roles, dict(cfg, team=1), gstyle=desc["gstyle"], step_cap=cap,
+                                                        track_conflicts=0)
+                        solo.append((r_, a_[outn].copy()))
+                    outs, stc = kernels.run_concurrent(sim, [(kn, vals, roles) for kn, vals, roles, outn in specs],
+                                                       dict(c2["ccfg"], dset_cap=cfg.get("dset_cap", 0)), gstyle=desc["gstyle"],
+                                                       pct_est=max(50, 30 * int(stored.sum() + st2.sum())))
+                    nconc += 1
+                    v = enginea.viol_from_stats(stc, kern, {})
+                    if v is not None:
+                        v["key"] = kern + ":concurrent:" + v["class"]
+                        viol = v
+                        break
+                    for q, (r_, arrs) in enumerate(outs):
+                        if r_ != solo[q][0] or arrs[specs[q][3]].tobytes() != solo[q][1].tobytes():
+                            viol = {"class": "not-reentrant", "key": kern + ":not-reentrant",
+                                    "detail": "two Python threads label two different frames with %s at the same time: caller %d gets "
+                                              "n=%s and other labels than when it calls alone (n=%s)" % (kern, q, r_, solo[q][0])}
+                            break
+                    if viol is not None:
+                        break
+        meas["concurrent_frame_pairs"] = nconc
         meas["image_kind"] = {desc["kind"]: 1}
         meas["dset_capacity"] = {cfg.get("dset_cap", 0) or 16384: 1}
         meas["dset_grew(realloc)"] = 1 if (meas["realloc_moved"] + meas["realloc_stay"]) > 0 else 0
